@@ -2265,17 +2265,39 @@ func rulePIDXRPC(p *Program, r *Reporter) {
 		}
 		seen[fn] = true
 		fc := newFlowCtx(fn)
+		// the list under another type (params(args)) is the same list
+		alias := map[ssa.Value]bool{args: true}
+		for changed := true; changed; {
+			changed = false
+			for _, b := range fn.Blocks {
+				for _, ins := range b.Instrs {
+					var src ssa.Value
+					switch x := ins.(type) {
+					case *ssa.ChangeType:
+						src = x.X
+					case *ssa.Convert:
+						src = x.X
+					}
+					if v, isV := ins.(ssa.Value); isV && src != nil && alias[src] && !alias[v] {
+						if _, isSlice := v.Type().Underlying().(*types.Slice); isSlice {
+							alias[v] = true
+							changed = true
+						}
+					}
+				}
+			}
+		}
 		for _, b := range fn.Blocks {
 			for _, ins := range b.Instrs {
 				switch x := ins.(type) {
 				case *ssa.IndexAddr:
-					if x.X == args {
+					if alias[x.X] {
 						ok, _, why := checkIndex(fc, x.X, x.Index, x)
 						r.Ob(id, funcName(fn), "request parameter "+opndStr(x), x.Pos(), ok, true,
 							ifs(ok, why, "the request's parameter list is indexed without a test of its length: a request with fewer parameters panics in the handler, and rpc2 does not recover ("+why+")"))
 					}
 				case *ssa.Slice:
-					if x.X == args {
+					if alias[x.X] {
 						var need int64
 						for _, bnd := range []ssa.Value{x.Low, x.High, x.Max} {
 							if k, isC := constInt(bnd); bnd != nil && isC && k > need {
@@ -2289,18 +2311,14 @@ func rulePIDXRPC(p *Program, r *Reporter) {
 						}
 					}
 				case *ssa.Call:
-					// handed on to a private helper
+					// handed on to a private helper, or the receiver of a method of its own type
 					g := x.Call.StaticCallee()
-					if g == nil || g.Blocks == nil || pkgOf(g) != "server" {
-						continue
-					}
-					off := 0
-					if x.Call.IsInvoke() {
+					if g == nil || g.Blocks == nil || pkgOf(g) != "server" || x.Call.IsInvoke() {
 						continue
 					}
 					for i, a := range x.Call.Args {
-						if a == args && i+off < len(g.Params) {
-							visit(g, g.Params[i+off], seen)
+						if alias[a] && i < len(g.Params) {
+							visit(g, g.Params[i], seen)
 						}
 					}
 				}
@@ -2312,6 +2330,7 @@ func rulePIDXRPC(p *Program, r *Reporter) {
 			continue
 		}
 		handlers++
+		r.Ob(id, funcName(fn), "handler examined", fn.Pos(), true, false, "every use of the request's parameter list in this handler and the helpers it is handed to is looked at")
 		visit(fn, fn.Params[2], map[*ssa.Function]bool{})
 	}
 	if handlers < 5 {
